@@ -22,7 +22,7 @@ import synlib
 import treeio
 import parsergen
 
-THEOREMS = ["C01_lossless_any_program", "C01_prefix_any_program", "C01_lexer_lossless"]
+THEOREMS = ["C01_lossless", "C01_lossless_checked", "C01_lossless_any_program", "C01_prefix_any_program", "C01_lexer_lossless"]
 TRUSTED = [
     "Coq 8.16.1 kernel; vm_compute for the reflective obligation on the regenerated grammar (certificate check); no axioms (Print Assumptions: closed under the global context)",
     "hand-written models coq/model/{Chars,Lexer,Prep,ParserPrims,Tree}.v of lexer.rs / preprocessor.rs / parser.rs and of rowan's GreenNodeBuilder (token, start_node, start_node_at, finish_node, finish; SyntaxNode::text and text_range derived from token texts), tied to the code by the correspondence run of this check",
@@ -30,7 +30,7 @@ TRUSTED = [
     "Coq extraction (ExtrOcamlBasic only) and the OCaml driver coq/extract/syntax_driver.ml",
     "Rust harness harness/src/bin/parsedump.rs, this Python driver and its oracle (lib/synlib.py: lossless_oracle)",
 ]
-TRANSLATORS = ["t_tokens", "t_lextables", "t_unicode", "t_grammar"]
+TRANSLATORS = ["t_tokens", "t_lextables", "t_unicode", "t_grammar", "t_grammarcert"]
 
 
 def corpus_files():
